@@ -22,6 +22,11 @@ func liveCheck(x *Exec, st *model.Status) []verdict {
 			open[e.Step] = true
 			starts[e.Step]++
 			okEnd[e.Step] = false
+		case "createfail":
+			// an attempt that failed before a process existed
+			starts[e.Step]++
+			okEnd[e.Step] = false
+			failEnds[e.Step]++
 		case "end":
 			delete(open, e.Step)
 			okEnd[e.Step] = e.OK
